@@ -530,6 +530,8 @@ func ruleGroupRender(c *Ctx) []Obligation {
 	for _, ci := range a.calls() {
 		if sc := ci.Common().StaticCallee(); sc != nil && sc == c.role("previous") {
 			prevDesc = a.Desc(callValue(ci))
+			args := ci.Common().Args
+			o.req(len(args) == 2 && args[0] == ssa.Value(f.Params[3]) && stripConv(args[1]) == ssa.Value(f.Params[0]), fn, "the block looks up what precedes itself in the enclosing statement", ci.Pos(), "previous(%s, %s)", a.Desc(args[0]), a.Desc(args[len(args)-1]))
 		}
 	}
 	blockAtom := `eq("block",recv.name)`
@@ -588,6 +590,12 @@ func ruleGroupRender(c *Ctx) []Obligation {
 				o.add(Violated, fn, construct, phi.Pos(), true, "%s token takes the value %s", dv.name, a.Desc(e))
 			}
 		}
+	}
+	// the context lookup itself: returns the item just before the given one (or nil)
+	if pf := c.role("previous"); pf != nil {
+		c.checkPrevious(o, pf)
+	} else {
+		o.add(Violated, fn, "a block can see the item that precedes it", f.Pos(), true, "no lookup of the preceding item: Case / Default blocks cannot be recognised")
 	}
 	// OPEN iff open != ""
 	od := a.Desc(openVal)
@@ -932,4 +940,58 @@ func callByDesc(a *FnA, d string) *ssa.Call {
 		}
 	}
 	return nil
+}
+
+// checkPrevious: every non-nil result of the context lookup is the element one position before an
+// element known to equal the argument.
+func (c *Ctx) checkPrevious(o *obs, f *ssa.Function) {
+	a := c.FA(f)
+	fn := fname(f)
+	nonNil := 0
+	for _, r := range a.returns() {
+		v := r.Results[0]
+		if isNilConst(v) {
+			continue
+		}
+		nonNil++
+		// v = recv[I - 1]
+		u, ok := v.(*ssa.UnOp)
+		var idx ssa.Value
+		if ok {
+			if ia, ok := u.X.(*ssa.IndexAddr); ok && a.Desc(ia.X) == "recv" {
+				if b, ok := ia.Index.(*ssa.BinOp); ok {
+					if n, ok := constInt(b.Y); ok && ((b.Op == token.SUB && n == 1) || (b.Op == token.ADD && n == -1)) {
+						idx = b.X
+					}
+				}
+			}
+		}
+		if idx == nil {
+			o.add(Violated, fn, "returns the element one position before the match", r.Pos(), true, "returns %s", a.Desc(v))
+			continue
+		}
+		facts := a.FactsAt(r.Block())
+		pos := facts.Has("lt(0,"+a.Desc(idx)+")", true)
+		matched := func(i ssa.Value, fs Facts) bool {
+			el := "recv[" + a.Desc(i) + "]"
+			return fs.Has("eq("+min2(el, "p0")+","+max2(el, "p0")+")", true)
+		}
+		okMatch := matched(idx, facts)
+		if phi, isPhi := idx.(*ssa.Phi); isPhi && !okMatch {
+			okMatch = true
+			for i, e := range phi.Edges {
+				if n, isC := constInt(e); isC && n <= 0 {
+					continue // "not found": excluded by the index > 0 test
+				}
+				ok, _ := allWays(a.WaysOnEdge(phi.Block().Preds[i], phi.Block()), func(w Facts) bool { return matched(e, w) })
+				if !ok {
+					okMatch = false
+				}
+			}
+		}
+		o.req(pos && okMatch, fn, "returns the element one position before the match", r.Pos(), "index %s: known > 0: %v, known to be the position of the argument: %v", a.Desc(idx), pos, okMatch)
+	}
+	if nonNil == 0 {
+		o.add(Violated, fn, "returns the element one position before the match", f.Pos(), true, "the lookup never returns an item")
+	}
 }
